@@ -125,8 +125,17 @@ def o4(tier):
     return r
 
 
+def o5(tier):
+    """a snapshot consumed by a rollback is gone from the table: a restart does not re-load it as a stale entry (timestamp 0) that shadows the next commit of that epoch"""
+    from props import C09
+    r = C09.sqlite_restore(tier)
+    r.oid = 'O5'
+    r.title = 'SQLite (shared with C09-O1): after restore_group_from_snapshot the consumed snapshot is deleted on every path (early exits included) and the other snapshots of the group are kept: what a restart hydrates is what the running manager tracks'
+    return r
+
+
 def run(tier, seed, only=None):
-    obs = [('O1', o1), ('O2', o2), ('O3', o3), ('O4', o4)]
+    obs = [('O1', o1), ('O2', o2), ('O3', o3), ('O4', o4), ('O5', o5)]
     out = []
     for k, f in obs:
         if only and k not in only:
